@@ -1,5 +1,5 @@
 \* the same state space as Isa6809_Gen.cfg with the leaf checks listed one by one (TLC names the violated one)
-CONSTANTS Full = FALSE Salt = 1 K = 3 Part = 0
+CONSTANTS Full = FALSE Salt = 1 K = 3 Parts = 1 Part = 0
 INIT Init
 NEXT Next
 INVARIANTS RoundTrip Lengths SameMeaning Distinct ChoiceSane ExpectSane CtxSane
